@@ -8,8 +8,11 @@
 import CC.Gen.Kernels
 import CC.Skein.Model
 import CC.Threefish.Src
+import CC.Skein.Lemmas
+import CC.Lemmas.SrcGlue
+import CC.Lemmas.SrcGlueBuffer
 namespace CC.Src
-open CC.Skein.Model
+open CC CC.Buffer CC.Skein.Model
 
 theorem src_skein_clean : Gen.Kernels.skein_errors = [] := rfl
 
@@ -38,5 +41,799 @@ theorem src_skein_instances :
     Gen.Kernels.skein_define_hasher.map (fun r => (r.1, (⟨r.2.2.1, tfByName r.2.1⟩ : Params), r.2.2.2))
       = [("Skein256", skein256, 8 * skein256.nb), ("Skein512", skein512, 8 * skein512.nb),
          ("Skein1024", skein1024, 8 * skein1024.nb)] := rfl
+
+
+/-! ## phase 3: the glue of lib.rs (`define_hasher!`), the three instantiations (tools/inventory_kernels_glue.py)
+
+  `process_block`, `Default::default`, `Update::update`, `FixedOutputDirty::finalize_into_dirty` (with the output loop over
+  `output.chunks_mut($state_bits / 8).enumerate()` as `forChunksMutEnum` of the generated body), `Reset::reset`,
+  regenerated from the source on every run.  `Block<N>` (a `repr(C)` union of bytes and words) is its byte array and
+  `^` the bytewise xor (named primitives); the Threefish calls are applications of the generated `threefish*_with_tweak` /
+  `threefish*_encrypt_block` (tied in `CC.Threefish.Src`); `input_lazy` / `pad_with::<ZeroPadding>` are `CC.Buffer.inputLazy` /
+  `padWithZero`.  `N::to_u64()` is the parameter `n_out` (the obligations take `n_out = n` with `8·n < 2^64`: the Rust's
+  `N::to_u64() * 8` is a checked multiplication the model does not have; no such `GenericArray` exists).  Panic messages are
+  not compared (`noMsg`). -/
+
+/-- the fields of the Rust `Skein*<N>` struct (`state.t.0`, `state.t.1`, `state.x`, `buffer`) -/
+def skeinEnc (h : Hasher) : BitVec 64 × BitVec 64 × List (BitVec 8) × BB := (h.state.t0, h.state.t1, h.state.x, h.buffer)
+def skeinStateEnc (s : State) : BitVec 64 × BitVec 64 × List (BitVec 8) := (s.t0, s.t1, s.x)
+
+theorem writeU64vLe_length (ns : List (BitVec 64)) : (CC.Threefish.Model.writeU64vLe ns).length = 8 * ns.length := by
+  induction ns with
+  | nil => rfl
+  | cons x xs ih => simp only [CC.Threefish.Model.writeU64vLe, List.flatMap_cons, List.length_append, List.length_cons] at ih ⊢; rw [ih]; simp [toLe64]; omega
+
+theorem readU64vLe_length (n : Nat) (b : List (BitVec 8)) : (CC.Threefish.Model.readU64vLe n b).length = n := by
+  induction n generalizing b with
+  | zero => rfl
+  | succ n ih => simp [CC.Threefish.Model.readU64vLe, ih]
+
+theorem encryptBlock_length (sh : CC.Threefish.Model.Shape) (p : CC.Threefish.Model.Params) (sk : List (List (BitVec 64)))
+    (block : List (BitVec 8)) : (CC.Threefish.Model.encryptBlock sh p sk block).length = 8 * p.nw := by
+  unfold CC.Threefish.Model.encryptBlock
+  rw [writeU64vLe_length, encWords_length, readU64vLe_length]
+
+theorem processBlock_ne_err (p : Profile) (P : Params) (st : State) (block : List (BitVec 8)) (n : Nat) :
+    processBlock p P st block n ≠ .err := by
+  unfold processBlock; simp only []; split <;> simp
+
+theorem default_ne_err (p : Profile) (P : Params) (n : Nat) : Skein.Model.default p P n ≠ .err := by
+  intro h
+  unfold Skein.Model.default at h
+  simp only [bind, Out.bind, pure] at h
+  split at h
+  · cases h
+  · rename_i hq; exact processBlock_ne_err _ _ _ _ _ hq
+  · cases h
+
+theorem toLe64_length (x : BitVec 64) : (toLe64 x).length = 8 := rfl
+
+/-! ### the output loop -/
+
+/-- output block `i` of `Output(x, ·)` as the model computes it -/
+def skeinOutBlk (P : Params) (x : List (BitVec 8)) (i : Nat) : List (BitVec 8) :=
+  (processCore P x (0 + BitVec.ofNat 64 8) (T1_FLAG_FIRST ||| T1_BLK_TYPE_OUT ||| T1_FLAG_FINAL) (ctrBlock P i)).x
+
+/-- the concatenation of the first `len` output bytes starting with block `i0` -/
+def skeinOutBytes (P : Params) (x : List (BitVec 8)) (i0 len : Nat) : List (BitVec 8) :=
+  ((List.range ((len + P.nb - 1) / P.nb)).map fun j => (skeinOutBlk P x (i0 + j)).take (min P.nb (len - j * P.nb))).flatten
+
+theorem outputLoop_closed (prof : Profile) (P : Params) (x : List (BitVec 8)) (n : Nat) :
+    outputLoop prof P x n = .ok (skeinOutBytes P x 0 n) := by
+  unfold outputLoop skeinOutBytes
+  rw [CC.Skein.foldlM_append_ok _ _ (fun i => (skeinOutBlk P x i).take (min P.nb (n - i * P.nb)))]
+  · simp only [List.nil_append, Nat.zero_add]
+  · intro out i
+    have : processBlock prof P { t0 := 0, t1 := T1_FLAG_FIRST ||| T1_BLK_TYPE_OUT ||| T1_FLAG_FINAL, x := x }
+        (ctrBlock P i) 8 = .ok (processCore P x (0 + BitVec.ofNat 64 8)
+          (T1_FLAG_FIRST ||| T1_BLK_TYPE_OUT ||| T1_FLAG_FINAL) (ctrBlock P i)) := by
+      unfold processBlock
+      have h : ¬ (prof = Profile.debug ∧ (0 : BitVec 64).toNat + (BitVec.ofNat 64 8).toNat ≥ 2 ^ 64) := by
+        intro ⟨_, h⟩; revert h; decide
+      simp only [h, if_false]
+    simp only [this]
+    rfl
+
+theorem skeinOutBytes_zero (P : Params) (hP : 0 < P.nb) (x : List (BitVec 8)) (i0 : Nat) : skeinOutBytes P x i0 0 = [] := by
+  have : (0 + P.nb - 1) / P.nb = 0 := by
+    rw [Nat.zero_add]; exact Nat.div_eq_of_lt (by omega)
+  simp [skeinOutBytes]
+
+theorem skeinOutBytes_pos (P : Params) (hP : 0 < P.nb) (x : List (BitVec 8)) (i0 len : Nat) (hl : 0 < len) :
+    skeinOutBytes P x i0 len =
+      (skeinOutBlk P x i0).take (min P.nb len) ++ skeinOutBytes P x (i0 + 1) (len - P.nb) := by
+  unfold skeinOutBytes
+  have hk : (len + P.nb - 1) / P.nb = (len - P.nb + P.nb - 1) / P.nb + 1 := by
+    by_cases h : len ≤ P.nb
+    · have e1 : len - P.nb = 0 := by omega
+      have e2 : (len + P.nb - 1) / P.nb = 1 := by
+        apply Nat.div_eq_of_lt_le <;> omega
+      have e3 : (0 + P.nb - 1) / P.nb = 0 := by rw [Nat.zero_add]; exact Nat.div_eq_of_lt (by omega)
+      rw [e1, e2, e3]
+    · have : len + P.nb - 1 = (len - P.nb + P.nb - 1) + P.nb := by omega
+      rw [this, Nat.add_div_right _ hP]
+  rw [hk, List.range_succ_eq_map, List.map_cons, List.flatten_cons, List.map_map]
+  have e0 : List.take (min P.nb (len - 0 * P.nb)) (skeinOutBlk P x (i0 + 0)) = List.take (min P.nb len) (skeinOutBlk P x i0) := by
+    simp
+  rw [e0]
+  congr 2
+  apply List.map_congr_left
+  intro j _
+  simp only [Function.comp]
+  have e1 : i0 + (j + 1) = i0 + 1 + j := by omega
+  have e2 : len - (j + 1) * P.nb = len - P.nb - j * P.nb := by
+    rw [Nat.add_mul, Nat.one_mul]; omega
+  rw [e1, e2]
+
+/-! ### Skein-256 -/
+
+theorem src_skein256_process_block (p : Profile) (st : State) (block : List (BitVec 8)) (n : Nat)
+    (hb : block.length = 32) :
+    noMsg (Gen.Kernels.skein256_process_block p st.t0 st.t1 st.x block n)
+      = noMsg (processBlock p skein256 st block n >>= fun s => .ok (skeinStateEnc s)) := by
+  unfold Gen.Kernels.skein256_process_block processBlock processCore
+  simp only [← src_threefish256_with_tweak, ← src_threefish256_encrypt_block]
+  rw [xorInto_eq_xorBytes _ _ (by rw [encryptBlock_length, hb]; decide)]
+  have e : (13835058055282163711#64 : BitVec 64) = ~~~T1_FLAG_FIRST := by decide
+  rw [e]
+  generalize (BitVec.ofNat 64 n).toNat = m
+  by_cases h : p = Profile.debug ∧ st.t0.toNat + m ≥ 2 ^ 64
+  · have h' : p = Profile.debug ∧ decide (st.t0.toNat + m < 2 ^ 64) = false := by
+      refine ⟨h.1, ?_⟩; rw [decide_eq_false_iff_not]; omega
+    rw [if_pos h, if_pos h']; rfl
+  · have h' : ¬ (p = Profile.debug ∧ decide (st.t0.toNat + m < 2 ^ 64) = false) := by
+      intro ⟨a, b⟩; apply h; refine ⟨a, ?_⟩; rw [decide_eq_false_iff_not] at b; omega
+    rw [if_neg h, if_neg h']
+    simp only [Out.bind_ok, skeinStateEnc, skein256]
+
+theorem skein256_cfg (n : BitVec 64) :
+    toLe64 0x0000000133414853#64 ++ toLe64 (n * 8#64) ++ toLe64 0#64 ++ List.drop 24 (List.replicate 32 0#8)
+      = splice (splice (splice (List.replicate 32 (0 : BitVec 8)) 0 (toLe64 SCHEMA_VER)) 8 (toLe64 (n * 8))) 16
+          (toLe64 CFG_TREE_INFO_SEQUENTIAL) := by
+  have e1 : SCHEMA_VER = 0x0000000133414853#64 := by decide
+  have e2 : CFG_TREE_INFO_SEQUENTIAL = 0#64 := rfl
+  rw [e1, e2]
+  simp only [toLe64, splice, List.length_cons, List.length_nil]
+  simp
+
+theorem src_skein256_default (p : Profile) (n : Nat) (hn : n * 8 < 2 ^ 64) :
+    noMsg (Gen.Kernels.skein256_default p (BitVec.ofNat 64 n))
+      = noMsg (default p skein256 n >>= fun h => .ok (skeinEnc h)) := by
+  unfold Gen.Kernels.skein256_default
+  extract_lets t1 t2 t3 t4 t5 t6 t7 t8 t9 t10 t11 t12 t13 t14 t15 t16 t17 t18 t19
+  have e18 : t18 = true := by
+    simp only [t18, t7, decide_eq_true_iff, BitVec.toNat_ofNat]
+    have : n % 2 ^ 64 ≤ n := Nat.mod_le _ _
+    omega
+  have e12 : t12 = cfgBlock skein256 n := by
+    simp only [t12, t6, t9, t10, t11, t5, t8, t7, t1, t4, cfgBlock]
+    exact skein256_cfg _
+  have e14 := src_skein256_process_block p ⟨t1, t3, t4⟩ t12 t13 (by rw [e12]; simp [cfgBlock, splice, toLe64_length, skein256])
+  have hst : ({ t0 := 0, t1 := T1_FLAG_FIRST ||| T1_BLK_TYPE_CFG ||| T1_FLAG_FINAL, x := List.replicate skein256.nb 0 } : State)
+      = ⟨t1, t3, t4⟩ := by
+    simp only [t1, t3, t4, skein256]
+    congr 1
+  have e14' : noMsg t14 = noMsg (processBlock p skein256 ⟨t1, t3, t4⟩ (cfgBlock skein256 n) CFG_STR_LEN >>=
+      fun s => .ok (skeinStateEnc s)) := by rw [← e12]; exact e14
+  have e19 : t19 = Gen.Kernels.outOk (noMsg t14) := by rw [outOk_noMsg]
+  have e15 : t15 = Gen.Kernels.outGet (noMsg t14) := by rw [outGet_noMsg]
+  simp only [e18, Bool.true_eq_false, and_false, if_false, Skein.Model.default, hst]
+  rw [e19, show t16 = t15.2.2 from rfl, e15, e14']
+  cases hp : processBlock p skein256 ⟨t1, t3, t4⟩ (cfgBlock skein256 n) CFG_STR_LEN with
+  | ok s =>
+    simp only [Out.bind_ok, noMsg, Gen.Kernels.outOk, Gen.Kernels.outGet, skeinStateEnc, skeinEnc, Bool.true_eq_false,
+      if_false, t1, t2, t17, Out.pure_eq, skein256]
+    congr 1
+  | err => exact absurd hp (processBlock_ne_err _ _ _ _ _)
+  | panic w => simp [noMsg, Gen.Kernels.outOk, bind_panic]
+
+theorem src_skein256_update (p : Profile) (h : Hasher) (hb : h.buffer.buf.length = 32) (hp : h.buffer.pos ≤ 32)
+    (data : List (BitVec 8)) :
+    noMsg (Gen.Kernels.skein256_update p h.state.t0 h.state.t1 h.state.x h.buffer data)
+      = noMsg (update p skein256 h data >>= fun h' => .ok (skeinEnc h')) := by
+  unfold Gen.Kernels.skein256_update update
+  extract_lets t1 t2 t3 t4 t5 t6 t7 t8
+  have hrel := inputLazy_rel
+    (fun (a : Out State) (o : Out (BitVec 64 × BitVec 64 × List (BitVec 8))) =>
+      noMsg o = noMsg (a >>= fun s => .ok (skeinStateEnc s)))
+    32 h.buffer hb hp data
+    (fun (acc : Out State) block => acc >>= fun st => processBlock p skein256 st block skein256.nb)
+    (fun a blk => a >>= fun s => Gen.Kernels.skein256_update_closure1 p s blk)
+    (by
+      intro a o x hx hR
+      cases a with
+      | ok st =>
+        cases o with
+        | ok s =>
+          have hs : s = skeinStateEnc st := by simpa [noMsg] using hR
+          subst hs
+          simp only [Out.bind_ok, Gen.Kernels.skein256_update_closure1]
+          have e := src_skein256_process_block p st x 32 hx
+          rw [← outOk_noMsg, ← outGet_noMsg]
+          simp only [skeinStateEnc] at e ⊢
+          simp only [e]
+          have hnb : skein256.nb = 32 := rfl
+          rw [hnb]
+          cases hq : processBlock p skein256 st x 32 with
+          | ok s' => simp [noMsg, Gen.Kernels.outOk, Gen.Kernels.outGet]
+          | err => exact absurd hq (processBlock_ne_err _ _ _ _ _)
+          | panic w => simp [noMsg, Gen.Kernels.outOk, bind_panic]
+        | err => simp [noMsg] at hR
+        | panic w => simp [noMsg] at hR
+      | err =>
+        cases o with
+        | ok s => simp [noMsg, bind_err] at hR
+        | err => simp [noMsg, bind_err]
+        | panic w => simp [noMsg, bind_err] at hR
+      | panic w =>
+        cases o with
+        | ok s => simp [noMsg, bind_panic] at hR
+        | err => simp [noMsg, bind_panic] at hR
+        | panic w' => simp [noMsg, bind_panic])
+    (.ok h.state) (.ok (h.state.t0, h.state.t1, h.state.x)) (by simp [noMsg, skeinStateEnc])
+  obtain ⟨hbuf, hacc⟩ := hrel
+  have hnb : skein256.nb = 32 := rfl
+  have hne := (inputLazy_rel (fun (a : Out State) (_ : Unit) => a ≠ .err) 32 h.buffer hb hp data
+    (fun (acc : Out State) block => acc >>= fun st => processBlock p skein256 st block 32) (fun u _ => u)
+    (by
+      intro a _ x _ ha
+      cases a with
+      | ok st => exact processBlock_ne_err _ _ _ _ _
+      | err => exact absurd rfl ha
+      | panic w => simp [bind_panic])
+    (.ok h.state) () (by simp)).2
+  rw [hnb]
+  have e8 : t8 = Gen.Kernels.outOk (noMsg t2) := by rw [outOk_noMsg]
+  have e3 : t3 = Gen.Kernels.outGet (noMsg t2) := by rw [outGet_noMsg]
+  rw [e8, show t4 = t3.1 from rfl, show t5 = t3.2.1 from rfl, show t6 = t3.2.2 from rfl, e3,
+    show t7 = t1.1 from rfl, show t2 = t1.2 from rfl]
+  simp only [t1, hacc, ← hbuf, hnb]
+  generalize inputLazy 32 h.buffer data (fun acc block => acc >>= fun st => processBlock p skein256 st block 32)
+    (Out.ok h.state) = r at hne ⊢
+  obtain ⟨bb, acc⟩ := r
+  cases acc with
+  | ok st => simp [noMsg, Gen.Kernels.outOk, Gen.Kernels.outGet, skeinStateEnc, skeinEnc]
+  | err => exact absurd rfl hne
+  | panic w => simp [noMsg, Gen.Kernels.outOk, bind_panic]
+
+theorem skein256_loop1_eq (x : List (BitVec 8)) (i : Nat) (dd : List (BitVec 8)) :
+    Gen.Kernels.skein256_finalize_into_dirty_loop1 x () i dd = ((), (skeinOutBlk skein256 x i).take dd.length) := by
+  unfold Gen.Kernels.skein256_finalize_into_dirty_loop1 skeinOutBlk processCore
+  simp only [← src_threefish256_with_tweak, ← src_threefish256_encrypt_block]
+  have hc : toLe64 (BitVec.ofNat 64 i) ++ List.drop 8 (List.replicate 32 (0#8 : BitVec 8)) = ctrBlock skein256 i := by
+    simp only [ctrBlock, splice, skein256, toLe64_length]
+    simp
+  have ht : (0xff00000000000000#64 : BitVec 64) = T1_FLAG_FIRST ||| T1_BLK_TYPE_OUT ||| T1_FLAG_FINAL := by decide
+  have h8 : (8#64 : BitVec 64) = 0 + BitVec.ofNat 64 8 := by decide
+  rw [hc, ht, h8, xorInto_eq_xorBytes _ _ (by
+    rw [encryptBlock_length]; simp [ctrBlock, splice, skein256, toLe64_length, CC.Threefish.Model.tf256])]
+  rfl
+
+theorem skein256_out_tie (x : List (BitVec 8)) :
+    ∀ (fuel i : Nat) (d : List (BitVec 8)), d.length ≤ fuel →
+      Gen.Kernels.forChunksMutEnumAux 32 (Gen.Kernels.skein256_finalize_into_dirty_loop1 x) fuel i () d
+        = ((), skeinOutBytes skein256 x i d.length) := by
+  intro fuel
+  induction fuel with
+  | zero =>
+    intro i d hd
+    have : d = [] := List.eq_nil_of_length_eq_zero (by omega)
+    subst this
+    simp [Gen.Kernels.forChunksMutEnumAux, skeinOutBytes_zero skein256 (by decide)]
+  | succ fuel ih =>
+    intro i d hd
+    by_cases hz : d.length = 0
+    · have : d = [] := List.eq_nil_of_length_eq_zero hz
+      subst this
+      simp [Gen.Kernels.forChunksMutEnumAux, skeinOutBytes_zero skein256 (by decide)]
+    · have hc : 0 < d.length ∧ 0 < 32 := by omega
+      simp only [Gen.Kernels.forChunksMutEnumAux, hc, and_self, if_true, skein256_loop1_eq]
+      rw [ih (i + 1) (d.drop 32) (by simp; omega), skeinOutBytes_pos skein256 (by decide) x i d.length (by omega)]
+      simp only [List.length_take, List.length_drop]
+      rfl
+
+theorem src_skein256_finalize_into_dirty (p : Profile) (h : Hasher) (hp : h.buffer.pos ≤ 32) (hb : h.buffer.buf.length = 32)
+    (output : List (BitVec 8)) :
+    noMsg (Gen.Kernels.skein256_finalize_into_dirty p h.state.t0 h.state.t1 h.state.x h.buffer output)
+      = noMsg (finalizeIntoDirty p skein256 output.length h >>= fun r =>
+          .ok (r.1.state.t0, r.1.state.t1, r.1.state.x, r.1.buffer, r.2)) := by
+  unfold Gen.Kernels.skein256_finalize_into_dirty finalizeIntoDirty
+  extract_lets t1 t2 t3 t4 t5 t6 t7 t8 t9 t10 t11 t12 t13 t14 t15 t16 t17 t18 src0 st0
+  have hpad : padWithZero 32 h.buffer = some ({ buf := zeroFrom h.buffer.buf h.buffer.pos, pos := 0 },
+      zeroFrom h.buffer.buf h.buffer.pos) := by
+    unfold padWithZero; rw [if_neg (by omega)]
+  have e17 : t17 = true := by simp only [t17, t9, hpad, Option.isSome_some]
+  have e11 : t11 = zeroFrom h.buffer.buf h.buffer.pos := by simp only [t11, t10, t9, hpad, Option.getD_some]
+  have e14 : t14 = { buf := zeroFrom h.buffer.buf h.buffer.pos, pos := 0 } := by
+    simp only [t14, t10, t9, hpad, Option.getD_some]
+  have hl11 : t11.length = 32 := by rw [e11]; simp [zeroFrom, hb]; omega
+  have hnb : skein256.nb = 32 := rfl
+  have e13 : t13 = (processCore skein256 h.state.x (h.state.t0 + BitVec.ofNat 64 h.buffer.pos)
+      (h.state.t1 ||| T1_FLAG_FINAL) t11).x := by
+    simp only [t13, t12, t8, t5, t4, t3, t2, t1, processCore, ← src_threefish256_with_tweak,
+      ← src_threefish256_encrypt_block]
+    rw [xorInto_eq_xorBytes _ _ (by rw [encryptBlock_length, hl11]; decide)]
+    have : (0x8000000000000000#64 : BitVec 64) = T1_FLAG_FINAL := by decide
+    rw [this]; rfl
+  have e7 : t7 = (h.state.t1 ||| T1_FLAG_FINAL) &&& ~~~T1_FLAG_FIRST := by
+    simp only [t7, t6, t5, t4]
+    have a : (0x8000000000000000#64 : BitVec 64) = T1_FLAG_FINAL := by decide
+    have b : (0xbfffffffffffffff#64 : BitVec 64) = ~~~T1_FLAG_FIRST := by decide
+    rw [a, b]
+  have e16 : t16 = skeinOutBytes skein256 t13 0 output.length := by
+    simp only [t16, t15, Gen.Kernels.forChunksMutEnum]
+    rw [skein256_out_tie t13 output.length 0 output (Nat.le_refl _)]
+  simp only [e17, Bool.true_eq_false, if_false, hnb, hpad, processBlock]
+  generalize hm : (BitVec.ofNat 64 h.buffer.pos).toNat = m
+  have e18 : t18 = decide (h.state.t0.toNat + m < 2 ^ 64) := by simp only [t18, t2, t1, hm]
+  by_cases hov : p = Profile.debug ∧ h.state.t0.toNat + m ≥ 2 ^ 64
+  · have h' : p = Profile.debug ∧ t18 = false := by
+      refine ⟨hov.1, ?_⟩; rw [e18, decide_eq_false_iff_not]; omega
+    rw [if_pos h']
+    simp only [st0, src0, t1, if_pos hov, bind_panic, noMsg]
+  · have h' : ¬ (p = Profile.debug ∧ t18 = false) := by
+      intro ⟨a, b⟩; apply hov; refine ⟨a, ?_⟩; rw [e18, decide_eq_false_iff_not] at b; omega
+    rw [if_neg h']
+    simp only [st0, src0, t1, if_neg hov, Out.bind_ok, outputLoop_closed, Out.pure_eq, e14, e16, e13, e7, e11,
+      show t3 = h.state.t0 + BitVec.ofNat 64 h.buffer.pos from rfl, processCore]
+
+theorem src_skein256_reset (p : Profile) (h : Hasher) (n : Nat) (hn : n * 8 < 2 ^ 64) :
+    noMsg (Gen.Kernels.skein256_reset p h.state.t0 h.state.t1 h.state.x h.buffer (BitVec.ofNat 64 n))
+      = noMsg (reset p skein256 n h >>= fun h' => .ok (skeinEnc h')) := by
+  unfold Gen.Kernels.skein256_reset reset
+  extract_lets t1 t2 t3 t4 t5 t6 t7
+  have e7 : t7 = Gen.Kernels.outOk (noMsg t1) := by rw [outOk_noMsg]
+  have e2 : t2 = Gen.Kernels.outGet (noMsg t1) := by rw [outGet_noMsg]
+  rw [e7, show t3 = t2.1 from rfl, show t4 = t2.2.1 from rfl, show t5 = t2.2.2.1 from rfl,
+    show t6 = t2.2.2.2 from rfl, e2, show t1 = Gen.Kernels.skein256_default p (BitVec.ofNat 64 n) from rfl,
+    src_skein256_default p n hn]
+  cases hd : Skein.Model.default p skein256 n with
+  | ok s => simp [noMsg, Gen.Kernels.outOk, Gen.Kernels.outGet, skeinEnc]
+  | err => exact absurd hd (default_ne_err _ _ _)
+  | panic w => simp [noMsg, Gen.Kernels.outOk, bind_panic]
+
+/-! ### Skein-512 -/
+
+theorem src_skein512_process_block (p : Profile) (st : State) (block : List (BitVec 8)) (n : Nat)
+    (hb : block.length = 64) :
+    noMsg (Gen.Kernels.skein512_process_block p st.t0 st.t1 st.x block n)
+      = noMsg (processBlock p skein512 st block n >>= fun s => .ok (skeinStateEnc s)) := by
+  unfold Gen.Kernels.skein512_process_block processBlock processCore
+  simp only [← src_threefish512_with_tweak, ← src_threefish512_encrypt_block]
+  rw [xorInto_eq_xorBytes _ _ (by rw [encryptBlock_length, hb]; decide)]
+  have e : (13835058055282163711#64 : BitVec 64) = ~~~T1_FLAG_FIRST := by decide
+  rw [e]
+  generalize (BitVec.ofNat 64 n).toNat = m
+  by_cases h : p = Profile.debug ∧ st.t0.toNat + m ≥ 2 ^ 64
+  · have h' : p = Profile.debug ∧ decide (st.t0.toNat + m < 2 ^ 64) = false := by
+      refine ⟨h.1, ?_⟩; rw [decide_eq_false_iff_not]; omega
+    rw [if_pos h, if_pos h']; rfl
+  · have h' : ¬ (p = Profile.debug ∧ decide (st.t0.toNat + m < 2 ^ 64) = false) := by
+      intro ⟨a, b⟩; apply h; refine ⟨a, ?_⟩; rw [decide_eq_false_iff_not] at b; omega
+    rw [if_neg h, if_neg h']
+    simp only [Out.bind_ok, skeinStateEnc, skein512]
+
+theorem skein512_cfg (n : BitVec 64) :
+    toLe64 0x0000000133414853#64 ++ toLe64 (n * 8#64) ++ toLe64 0#64 ++ List.drop 24 (List.replicate 64 0#8)
+      = splice (splice (splice (List.replicate 64 (0 : BitVec 8)) 0 (toLe64 SCHEMA_VER)) 8 (toLe64 (n * 8))) 16
+          (toLe64 CFG_TREE_INFO_SEQUENTIAL) := by
+  have e1 : SCHEMA_VER = 0x0000000133414853#64 := by decide
+  have e2 : CFG_TREE_INFO_SEQUENTIAL = 0#64 := rfl
+  rw [e1, e2]
+  simp only [toLe64, splice, List.length_cons, List.length_nil]
+  simp
+
+theorem src_skein512_default (p : Profile) (n : Nat) (hn : n * 8 < 2 ^ 64) :
+    noMsg (Gen.Kernels.skein512_default p (BitVec.ofNat 64 n))
+      = noMsg (default p skein512 n >>= fun h => .ok (skeinEnc h)) := by
+  unfold Gen.Kernels.skein512_default
+  extract_lets t1 t2 t3 t4 t5 t6 t7 t8 t9 t10 t11 t12 t13 t14 t15 t16 t17 t18 t19
+  have e18 : t18 = true := by
+    simp only [t18, t7, decide_eq_true_iff, BitVec.toNat_ofNat]
+    have : n % 2 ^ 64 ≤ n := Nat.mod_le _ _
+    omega
+  have e12 : t12 = cfgBlock skein512 n := by
+    simp only [t12, t6, t9, t10, t11, t5, t8, t7, t1, t4, cfgBlock]
+    exact skein512_cfg _
+  have e14 := src_skein512_process_block p ⟨t1, t3, t4⟩ t12 t13 (by rw [e12]; simp [cfgBlock, splice, toLe64_length, skein512])
+  have hst : ({ t0 := 0, t1 := T1_FLAG_FIRST ||| T1_BLK_TYPE_CFG ||| T1_FLAG_FINAL, x := List.replicate skein512.nb 0 } : State)
+      = ⟨t1, t3, t4⟩ := by
+    simp only [t1, t3, t4, skein512]
+    congr 1
+  have e14' : noMsg t14 = noMsg (processBlock p skein512 ⟨t1, t3, t4⟩ (cfgBlock skein512 n) CFG_STR_LEN >>=
+      fun s => .ok (skeinStateEnc s)) := by rw [← e12]; exact e14
+  have e19 : t19 = Gen.Kernels.outOk (noMsg t14) := by rw [outOk_noMsg]
+  have e15 : t15 = Gen.Kernels.outGet (noMsg t14) := by rw [outGet_noMsg]
+  simp only [e18, Bool.true_eq_false, and_false, if_false, Skein.Model.default, hst]
+  rw [e19, show t16 = t15.2.2 from rfl, e15, e14']
+  cases hp : processBlock p skein512 ⟨t1, t3, t4⟩ (cfgBlock skein512 n) CFG_STR_LEN with
+  | ok s =>
+    simp only [Out.bind_ok, noMsg, Gen.Kernels.outOk, Gen.Kernels.outGet, skeinStateEnc, skeinEnc, Bool.true_eq_false,
+      if_false, t1, t2, t17, Out.pure_eq, skein512]
+    congr 1
+  | err => exact absurd hp (processBlock_ne_err _ _ _ _ _)
+  | panic w => simp [noMsg, Gen.Kernels.outOk, bind_panic]
+
+theorem src_skein512_update (p : Profile) (h : Hasher) (hb : h.buffer.buf.length = 64) (hp : h.buffer.pos ≤ 64)
+    (data : List (BitVec 8)) :
+    noMsg (Gen.Kernels.skein512_update p h.state.t0 h.state.t1 h.state.x h.buffer data)
+      = noMsg (update p skein512 h data >>= fun h' => .ok (skeinEnc h')) := by
+  unfold Gen.Kernels.skein512_update update
+  extract_lets t1 t2 t3 t4 t5 t6 t7 t8
+  have hrel := inputLazy_rel
+    (fun (a : Out State) (o : Out (BitVec 64 × BitVec 64 × List (BitVec 8))) =>
+      noMsg o = noMsg (a >>= fun s => .ok (skeinStateEnc s)))
+    64 h.buffer hb hp data
+    (fun (acc : Out State) block => acc >>= fun st => processBlock p skein512 st block skein512.nb)
+    (fun a blk => a >>= fun s => Gen.Kernels.skein512_update_closure1 p s blk)
+    (by
+      intro a o x hx hR
+      cases a with
+      | ok st =>
+        cases o with
+        | ok s =>
+          have hs : s = skeinStateEnc st := by simpa [noMsg] using hR
+          subst hs
+          simp only [Out.bind_ok, Gen.Kernels.skein512_update_closure1]
+          have e := src_skein512_process_block p st x 64 hx
+          rw [← outOk_noMsg, ← outGet_noMsg]
+          simp only [skeinStateEnc] at e ⊢
+          simp only [e]
+          have hnb : skein512.nb = 64 := rfl
+          rw [hnb]
+          cases hq : processBlock p skein512 st x 64 with
+          | ok s' => simp [noMsg, Gen.Kernels.outOk, Gen.Kernels.outGet]
+          | err => exact absurd hq (processBlock_ne_err _ _ _ _ _)
+          | panic w => simp [noMsg, Gen.Kernels.outOk, bind_panic]
+        | err => simp [noMsg] at hR
+        | panic w => simp [noMsg] at hR
+      | err =>
+        cases o with
+        | ok s => simp [noMsg, bind_err] at hR
+        | err => simp [noMsg, bind_err]
+        | panic w => simp [noMsg, bind_err] at hR
+      | panic w =>
+        cases o with
+        | ok s => simp [noMsg, bind_panic] at hR
+        | err => simp [noMsg, bind_panic] at hR
+        | panic w' => simp [noMsg, bind_panic])
+    (.ok h.state) (.ok (h.state.t0, h.state.t1, h.state.x)) (by simp [noMsg, skeinStateEnc])
+  obtain ⟨hbuf, hacc⟩ := hrel
+  have hnb : skein512.nb = 64 := rfl
+  have hne := (inputLazy_rel (fun (a : Out State) (_ : Unit) => a ≠ .err) 64 h.buffer hb hp data
+    (fun (acc : Out State) block => acc >>= fun st => processBlock p skein512 st block 64) (fun u _ => u)
+    (by
+      intro a _ x _ ha
+      cases a with
+      | ok st => exact processBlock_ne_err _ _ _ _ _
+      | err => exact absurd rfl ha
+      | panic w => simp [bind_panic])
+    (.ok h.state) () (by simp)).2
+  rw [hnb]
+  have e8 : t8 = Gen.Kernels.outOk (noMsg t2) := by rw [outOk_noMsg]
+  have e3 : t3 = Gen.Kernels.outGet (noMsg t2) := by rw [outGet_noMsg]
+  rw [e8, show t4 = t3.1 from rfl, show t5 = t3.2.1 from rfl, show t6 = t3.2.2 from rfl, e3,
+    show t7 = t1.1 from rfl, show t2 = t1.2 from rfl]
+  simp only [t1, hacc, ← hbuf, hnb]
+  generalize inputLazy 64 h.buffer data (fun acc block => acc >>= fun st => processBlock p skein512 st block 64)
+    (Out.ok h.state) = r at hne ⊢
+  obtain ⟨bb, acc⟩ := r
+  cases acc with
+  | ok st => simp [noMsg, Gen.Kernels.outOk, Gen.Kernels.outGet, skeinStateEnc, skeinEnc]
+  | err => exact absurd rfl hne
+  | panic w => simp [noMsg, Gen.Kernels.outOk, bind_panic]
+
+theorem skein512_loop1_eq (x : List (BitVec 8)) (i : Nat) (dd : List (BitVec 8)) :
+    Gen.Kernels.skein512_finalize_into_dirty_loop1 x () i dd = ((), (skeinOutBlk skein512 x i).take dd.length) := by
+  unfold Gen.Kernels.skein512_finalize_into_dirty_loop1 skeinOutBlk processCore
+  simp only [← src_threefish512_with_tweak, ← src_threefish512_encrypt_block]
+  have hc : toLe64 (BitVec.ofNat 64 i) ++ List.drop 8 (List.replicate 64 (0#8 : BitVec 8)) = ctrBlock skein512 i := by
+    simp only [ctrBlock, splice, skein512, toLe64_length]
+    simp
+  have ht : (0xff00000000000000#64 : BitVec 64) = T1_FLAG_FIRST ||| T1_BLK_TYPE_OUT ||| T1_FLAG_FINAL := by decide
+  have h8 : (8#64 : BitVec 64) = 0 + BitVec.ofNat 64 8 := by decide
+  rw [hc, ht, h8, xorInto_eq_xorBytes _ _ (by
+    rw [encryptBlock_length]; simp [ctrBlock, splice, skein512, toLe64_length, CC.Threefish.Model.tf512])]
+  rfl
+
+theorem skein512_out_tie (x : List (BitVec 8)) :
+    ∀ (fuel i : Nat) (d : List (BitVec 8)), d.length ≤ fuel →
+      Gen.Kernels.forChunksMutEnumAux 64 (Gen.Kernels.skein512_finalize_into_dirty_loop1 x) fuel i () d
+        = ((), skeinOutBytes skein512 x i d.length) := by
+  intro fuel
+  induction fuel with
+  | zero =>
+    intro i d hd
+    have : d = [] := List.eq_nil_of_length_eq_zero (by omega)
+    subst this
+    simp [Gen.Kernels.forChunksMutEnumAux, skeinOutBytes_zero skein512 (by decide)]
+  | succ fuel ih =>
+    intro i d hd
+    by_cases hz : d.length = 0
+    · have : d = [] := List.eq_nil_of_length_eq_zero hz
+      subst this
+      simp [Gen.Kernels.forChunksMutEnumAux, skeinOutBytes_zero skein512 (by decide)]
+    · have hc : 0 < d.length ∧ 0 < 64 := by omega
+      simp only [Gen.Kernels.forChunksMutEnumAux, hc, and_self, if_true, skein512_loop1_eq]
+      rw [ih (i + 1) (d.drop 64) (by simp; omega), skeinOutBytes_pos skein512 (by decide) x i d.length (by omega)]
+      simp only [List.length_take, List.length_drop]
+      rfl
+
+theorem src_skein512_finalize_into_dirty (p : Profile) (h : Hasher) (hp : h.buffer.pos ≤ 64) (hb : h.buffer.buf.length = 64)
+    (output : List (BitVec 8)) :
+    noMsg (Gen.Kernels.skein512_finalize_into_dirty p h.state.t0 h.state.t1 h.state.x h.buffer output)
+      = noMsg (finalizeIntoDirty p skein512 output.length h >>= fun r =>
+          .ok (r.1.state.t0, r.1.state.t1, r.1.state.x, r.1.buffer, r.2)) := by
+  unfold Gen.Kernels.skein512_finalize_into_dirty finalizeIntoDirty
+  extract_lets t1 t2 t3 t4 t5 t6 t7 t8 t9 t10 t11 t12 t13 t14 t15 t16 t17 t18 src0 st0
+  have hpad : padWithZero 64 h.buffer = some ({ buf := zeroFrom h.buffer.buf h.buffer.pos, pos := 0 },
+      zeroFrom h.buffer.buf h.buffer.pos) := by
+    unfold padWithZero; rw [if_neg (by omega)]
+  have e17 : t17 = true := by simp only [t17, t9, hpad, Option.isSome_some]
+  have e11 : t11 = zeroFrom h.buffer.buf h.buffer.pos := by simp only [t11, t10, t9, hpad, Option.getD_some]
+  have e14 : t14 = { buf := zeroFrom h.buffer.buf h.buffer.pos, pos := 0 } := by
+    simp only [t14, t10, t9, hpad, Option.getD_some]
+  have hl11 : t11.length = 64 := by rw [e11]; simp [zeroFrom, hb]; omega
+  have hnb : skein512.nb = 64 := rfl
+  have e13 : t13 = (processCore skein512 h.state.x (h.state.t0 + BitVec.ofNat 64 h.buffer.pos)
+      (h.state.t1 ||| T1_FLAG_FINAL) t11).x := by
+    simp only [t13, t12, t8, t5, t4, t3, t2, t1, processCore, ← src_threefish512_with_tweak,
+      ← src_threefish512_encrypt_block]
+    rw [xorInto_eq_xorBytes _ _ (by rw [encryptBlock_length, hl11]; decide)]
+    have : (0x8000000000000000#64 : BitVec 64) = T1_FLAG_FINAL := by decide
+    rw [this]; rfl
+  have e7 : t7 = (h.state.t1 ||| T1_FLAG_FINAL) &&& ~~~T1_FLAG_FIRST := by
+    simp only [t7, t6, t5, t4]
+    have a : (0x8000000000000000#64 : BitVec 64) = T1_FLAG_FINAL := by decide
+    have b : (0xbfffffffffffffff#64 : BitVec 64) = ~~~T1_FLAG_FIRST := by decide
+    rw [a, b]
+  have e16 : t16 = skeinOutBytes skein512 t13 0 output.length := by
+    simp only [t16, t15, Gen.Kernels.forChunksMutEnum]
+    rw [skein512_out_tie t13 output.length 0 output (Nat.le_refl _)]
+  simp only [e17, Bool.true_eq_false, if_false, hnb, hpad, processBlock]
+  generalize hm : (BitVec.ofNat 64 h.buffer.pos).toNat = m
+  have e18 : t18 = decide (h.state.t0.toNat + m < 2 ^ 64) := by simp only [t18, t2, t1, hm]
+  by_cases hov : p = Profile.debug ∧ h.state.t0.toNat + m ≥ 2 ^ 64
+  · have h' : p = Profile.debug ∧ t18 = false := by
+      refine ⟨hov.1, ?_⟩; rw [e18, decide_eq_false_iff_not]; omega
+    rw [if_pos h']
+    simp only [st0, src0, t1, if_pos hov, bind_panic, noMsg]
+  · have h' : ¬ (p = Profile.debug ∧ t18 = false) := by
+      intro ⟨a, b⟩; apply hov; refine ⟨a, ?_⟩; rw [e18, decide_eq_false_iff_not] at b; omega
+    rw [if_neg h']
+    simp only [st0, src0, t1, if_neg hov, Out.bind_ok, outputLoop_closed, Out.pure_eq, e14, e16, e13, e7, e11,
+      show t3 = h.state.t0 + BitVec.ofNat 64 h.buffer.pos from rfl, processCore]
+
+theorem src_skein512_reset (p : Profile) (h : Hasher) (n : Nat) (hn : n * 8 < 2 ^ 64) :
+    noMsg (Gen.Kernels.skein512_reset p h.state.t0 h.state.t1 h.state.x h.buffer (BitVec.ofNat 64 n))
+      = noMsg (reset p skein512 n h >>= fun h' => .ok (skeinEnc h')) := by
+  unfold Gen.Kernels.skein512_reset reset
+  extract_lets t1 t2 t3 t4 t5 t6 t7
+  have e7 : t7 = Gen.Kernels.outOk (noMsg t1) := by rw [outOk_noMsg]
+  have e2 : t2 = Gen.Kernels.outGet (noMsg t1) := by rw [outGet_noMsg]
+  rw [e7, show t3 = t2.1 from rfl, show t4 = t2.2.1 from rfl, show t5 = t2.2.2.1 from rfl,
+    show t6 = t2.2.2.2 from rfl, e2, show t1 = Gen.Kernels.skein512_default p (BitVec.ofNat 64 n) from rfl,
+    src_skein512_default p n hn]
+  cases hd : Skein.Model.default p skein512 n with
+  | ok s => simp [noMsg, Gen.Kernels.outOk, Gen.Kernels.outGet, skeinEnc]
+  | err => exact absurd hd (default_ne_err _ _ _)
+  | panic w => simp [noMsg, Gen.Kernels.outOk, bind_panic]
+
+/-! ### Skein-1024 -/
+
+theorem src_skein1024_process_block (p : Profile) (st : State) (block : List (BitVec 8)) (n : Nat)
+    (hb : block.length = 128) :
+    noMsg (Gen.Kernels.skein1024_process_block p st.t0 st.t1 st.x block n)
+      = noMsg (processBlock p skein1024 st block n >>= fun s => .ok (skeinStateEnc s)) := by
+  unfold Gen.Kernels.skein1024_process_block processBlock processCore
+  simp only [← src_threefish1024_with_tweak, ← src_threefish1024_encrypt_block]
+  rw [xorInto_eq_xorBytes _ _ (by rw [encryptBlock_length, hb]; decide)]
+  have e : (13835058055282163711#64 : BitVec 64) = ~~~T1_FLAG_FIRST := by decide
+  rw [e]
+  generalize (BitVec.ofNat 64 n).toNat = m
+  by_cases h : p = Profile.debug ∧ st.t0.toNat + m ≥ 2 ^ 64
+  · have h' : p = Profile.debug ∧ decide (st.t0.toNat + m < 2 ^ 64) = false := by
+      refine ⟨h.1, ?_⟩; rw [decide_eq_false_iff_not]; omega
+    rw [if_pos h, if_pos h']; rfl
+  · have h' : ¬ (p = Profile.debug ∧ decide (st.t0.toNat + m < 2 ^ 64) = false) := by
+      intro ⟨a, b⟩; apply h; refine ⟨a, ?_⟩; rw [decide_eq_false_iff_not] at b; omega
+    rw [if_neg h, if_neg h']
+    simp only [Out.bind_ok, skeinStateEnc, skein1024]
+
+theorem skein1024_cfg (n : BitVec 64) :
+    toLe64 0x0000000133414853#64 ++ toLe64 (n * 8#64) ++ toLe64 0#64 ++ List.drop 24 (List.replicate 128 0#8)
+      = splice (splice (splice (List.replicate 128 (0 : BitVec 8)) 0 (toLe64 SCHEMA_VER)) 8 (toLe64 (n * 8))) 16
+          (toLe64 CFG_TREE_INFO_SEQUENTIAL) := by
+  have e1 : SCHEMA_VER = 0x0000000133414853#64 := by decide
+  have e2 : CFG_TREE_INFO_SEQUENTIAL = 0#64 := rfl
+  rw [e1, e2]
+  simp only [toLe64, splice, List.length_cons, List.length_nil]
+  simp
+
+theorem src_skein1024_default (p : Profile) (n : Nat) (hn : n * 8 < 2 ^ 64) :
+    noMsg (Gen.Kernels.skein1024_default p (BitVec.ofNat 64 n))
+      = noMsg (default p skein1024 n >>= fun h => .ok (skeinEnc h)) := by
+  unfold Gen.Kernels.skein1024_default
+  extract_lets t1 t2 t3 t4 t5 t6 t7 t8 t9 t10 t11 t12 t13 t14 t15 t16 t17 t18 t19
+  have e18 : t18 = true := by
+    simp only [t18, t7, decide_eq_true_iff, BitVec.toNat_ofNat]
+    have : n % 2 ^ 64 ≤ n := Nat.mod_le _ _
+    omega
+  have e12 : t12 = cfgBlock skein1024 n := by
+    simp only [t12, t6, t9, t10, t11, t5, t8, t7, t1, t4, cfgBlock]
+    exact skein1024_cfg _
+  have e14 := src_skein1024_process_block p ⟨t1, t3, t4⟩ t12 t13 (by rw [e12]; simp [cfgBlock, splice, toLe64_length, skein1024])
+  have hst : ({ t0 := 0, t1 := T1_FLAG_FIRST ||| T1_BLK_TYPE_CFG ||| T1_FLAG_FINAL, x := List.replicate skein1024.nb 0 } : State)
+      = ⟨t1, t3, t4⟩ := by
+    simp only [t1, t3, t4, skein1024]
+    congr 1
+  have e14' : noMsg t14 = noMsg (processBlock p skein1024 ⟨t1, t3, t4⟩ (cfgBlock skein1024 n) CFG_STR_LEN >>=
+      fun s => .ok (skeinStateEnc s)) := by rw [← e12]; exact e14
+  have e19 : t19 = Gen.Kernels.outOk (noMsg t14) := by rw [outOk_noMsg]
+  have e15 : t15 = Gen.Kernels.outGet (noMsg t14) := by rw [outGet_noMsg]
+  simp only [e18, Bool.true_eq_false, and_false, if_false, Skein.Model.default, hst]
+  rw [e19, show t16 = t15.2.2 from rfl, e15, e14']
+  cases hp : processBlock p skein1024 ⟨t1, t3, t4⟩ (cfgBlock skein1024 n) CFG_STR_LEN with
+  | ok s =>
+    simp only [Out.bind_ok, noMsg, Gen.Kernels.outOk, Gen.Kernels.outGet, skeinStateEnc, skeinEnc, Bool.true_eq_false,
+      if_false, t1, t2, t17, Out.pure_eq, skein1024]
+    congr 1
+  | err => exact absurd hp (processBlock_ne_err _ _ _ _ _)
+  | panic w => simp [noMsg, Gen.Kernels.outOk, bind_panic]
+
+theorem src_skein1024_update (p : Profile) (h : Hasher) (hb : h.buffer.buf.length = 128) (hp : h.buffer.pos ≤ 128)
+    (data : List (BitVec 8)) :
+    noMsg (Gen.Kernels.skein1024_update p h.state.t0 h.state.t1 h.state.x h.buffer data)
+      = noMsg (update p skein1024 h data >>= fun h' => .ok (skeinEnc h')) := by
+  unfold Gen.Kernels.skein1024_update update
+  extract_lets t1 t2 t3 t4 t5 t6 t7 t8
+  have hrel := inputLazy_rel
+    (fun (a : Out State) (o : Out (BitVec 64 × BitVec 64 × List (BitVec 8))) =>
+      noMsg o = noMsg (a >>= fun s => .ok (skeinStateEnc s)))
+    128 h.buffer hb hp data
+    (fun (acc : Out State) block => acc >>= fun st => processBlock p skein1024 st block skein1024.nb)
+    (fun a blk => a >>= fun s => Gen.Kernels.skein1024_update_closure1 p s blk)
+    (by
+      intro a o x hx hR
+      cases a with
+      | ok st =>
+        cases o with
+        | ok s =>
+          have hs : s = skeinStateEnc st := by simpa [noMsg] using hR
+          subst hs
+          simp only [Out.bind_ok, Gen.Kernels.skein1024_update_closure1]
+          have e := src_skein1024_process_block p st x 128 hx
+          rw [← outOk_noMsg, ← outGet_noMsg]
+          simp only [skeinStateEnc] at e ⊢
+          simp only [e]
+          have hnb : skein1024.nb = 128 := rfl
+          rw [hnb]
+          cases hq : processBlock p skein1024 st x 128 with
+          | ok s' => simp [noMsg, Gen.Kernels.outOk, Gen.Kernels.outGet]
+          | err => exact absurd hq (processBlock_ne_err _ _ _ _ _)
+          | panic w => simp [noMsg, Gen.Kernels.outOk, bind_panic]
+        | err => simp [noMsg] at hR
+        | panic w => simp [noMsg] at hR
+      | err =>
+        cases o with
+        | ok s => simp [noMsg, bind_err] at hR
+        | err => simp [noMsg, bind_err]
+        | panic w => simp [noMsg, bind_err] at hR
+      | panic w =>
+        cases o with
+        | ok s => simp [noMsg, bind_panic] at hR
+        | err => simp [noMsg, bind_panic] at hR
+        | panic w' => simp [noMsg, bind_panic])
+    (.ok h.state) (.ok (h.state.t0, h.state.t1, h.state.x)) (by simp [noMsg, skeinStateEnc])
+  obtain ⟨hbuf, hacc⟩ := hrel
+  have hnb : skein1024.nb = 128 := rfl
+  have hne := (inputLazy_rel (fun (a : Out State) (_ : Unit) => a ≠ .err) 128 h.buffer hb hp data
+    (fun (acc : Out State) block => acc >>= fun st => processBlock p skein1024 st block 128) (fun u _ => u)
+    (by
+      intro a _ x _ ha
+      cases a with
+      | ok st => exact processBlock_ne_err _ _ _ _ _
+      | err => exact absurd rfl ha
+      | panic w => simp [bind_panic])
+    (.ok h.state) () (by simp)).2
+  rw [hnb]
+  have e8 : t8 = Gen.Kernels.outOk (noMsg t2) := by rw [outOk_noMsg]
+  have e3 : t3 = Gen.Kernels.outGet (noMsg t2) := by rw [outGet_noMsg]
+  rw [e8, show t4 = t3.1 from rfl, show t5 = t3.2.1 from rfl, show t6 = t3.2.2 from rfl, e3,
+    show t7 = t1.1 from rfl, show t2 = t1.2 from rfl]
+  simp only [t1, hacc, ← hbuf, hnb]
+  generalize inputLazy 128 h.buffer data (fun acc block => acc >>= fun st => processBlock p skein1024 st block 128)
+    (Out.ok h.state) = r at hne ⊢
+  obtain ⟨bb, acc⟩ := r
+  cases acc with
+  | ok st => simp [noMsg, Gen.Kernels.outOk, Gen.Kernels.outGet, skeinStateEnc, skeinEnc]
+  | err => exact absurd rfl hne
+  | panic w => simp [noMsg, Gen.Kernels.outOk, bind_panic]
+
+theorem skein1024_loop1_eq (x : List (BitVec 8)) (i : Nat) (dd : List (BitVec 8)) :
+    Gen.Kernels.skein1024_finalize_into_dirty_loop1 x () i dd = ((), (skeinOutBlk skein1024 x i).take dd.length) := by
+  unfold Gen.Kernels.skein1024_finalize_into_dirty_loop1 skeinOutBlk processCore
+  simp only [← src_threefish1024_with_tweak, ← src_threefish1024_encrypt_block]
+  have hc : toLe64 (BitVec.ofNat 64 i) ++ List.drop 8 (List.replicate 128 (0#8 : BitVec 8)) = ctrBlock skein1024 i := by
+    simp only [ctrBlock, splice, skein1024, toLe64_length]
+    simp
+  have ht : (0xff00000000000000#64 : BitVec 64) = T1_FLAG_FIRST ||| T1_BLK_TYPE_OUT ||| T1_FLAG_FINAL := by decide
+  have h8 : (8#64 : BitVec 64) = 0 + BitVec.ofNat 64 8 := by decide
+  rw [hc, ht, h8, xorInto_eq_xorBytes _ _ (by
+    rw [encryptBlock_length]; simp [ctrBlock, splice, skein1024, toLe64_length, CC.Threefish.Model.tf1024])]
+  rfl
+
+theorem skein1024_out_tie (x : List (BitVec 8)) :
+    ∀ (fuel i : Nat) (d : List (BitVec 8)), d.length ≤ fuel →
+      Gen.Kernels.forChunksMutEnumAux 128 (Gen.Kernels.skein1024_finalize_into_dirty_loop1 x) fuel i () d
+        = ((), skeinOutBytes skein1024 x i d.length) := by
+  intro fuel
+  induction fuel with
+  | zero =>
+    intro i d hd
+    have : d = [] := List.eq_nil_of_length_eq_zero (by omega)
+    subst this
+    simp [Gen.Kernels.forChunksMutEnumAux, skeinOutBytes_zero skein1024 (by decide)]
+  | succ fuel ih =>
+    intro i d hd
+    by_cases hz : d.length = 0
+    · have : d = [] := List.eq_nil_of_length_eq_zero hz
+      subst this
+      simp [Gen.Kernels.forChunksMutEnumAux, skeinOutBytes_zero skein1024 (by decide)]
+    · have hc : 0 < d.length ∧ 0 < 128 := by omega
+      simp only [Gen.Kernels.forChunksMutEnumAux, hc, and_self, if_true, skein1024_loop1_eq]
+      rw [ih (i + 1) (d.drop 128) (by simp; omega), skeinOutBytes_pos skein1024 (by decide) x i d.length (by omega)]
+      simp only [List.length_take, List.length_drop]
+      rfl
+
+theorem src_skein1024_finalize_into_dirty (p : Profile) (h : Hasher) (hp : h.buffer.pos ≤ 128) (hb : h.buffer.buf.length = 128)
+    (output : List (BitVec 8)) :
+    noMsg (Gen.Kernels.skein1024_finalize_into_dirty p h.state.t0 h.state.t1 h.state.x h.buffer output)
+      = noMsg (finalizeIntoDirty p skein1024 output.length h >>= fun r =>
+          .ok (r.1.state.t0, r.1.state.t1, r.1.state.x, r.1.buffer, r.2)) := by
+  unfold Gen.Kernels.skein1024_finalize_into_dirty finalizeIntoDirty
+  extract_lets t1 t2 t3 t4 t5 t6 t7 t8 t9 t10 t11 t12 t13 t14 t15 t16 t17 t18 src0 st0
+  have hpad : padWithZero 128 h.buffer = some ({ buf := zeroFrom h.buffer.buf h.buffer.pos, pos := 0 },
+      zeroFrom h.buffer.buf h.buffer.pos) := by
+    unfold padWithZero; rw [if_neg (by omega)]
+  have e17 : t17 = true := by simp only [t17, t9, hpad, Option.isSome_some]
+  have e11 : t11 = zeroFrom h.buffer.buf h.buffer.pos := by simp only [t11, t10, t9, hpad, Option.getD_some]
+  have e14 : t14 = { buf := zeroFrom h.buffer.buf h.buffer.pos, pos := 0 } := by
+    simp only [t14, t10, t9, hpad, Option.getD_some]
+  have hl11 : t11.length = 128 := by rw [e11]; simp [zeroFrom, hb]; omega
+  have hnb : skein1024.nb = 128 := rfl
+  have e13 : t13 = (processCore skein1024 h.state.x (h.state.t0 + BitVec.ofNat 64 h.buffer.pos)
+      (h.state.t1 ||| T1_FLAG_FINAL) t11).x := by
+    simp only [t13, t12, t8, t5, t4, t3, t2, t1, processCore, ← src_threefish1024_with_tweak,
+      ← src_threefish1024_encrypt_block]
+    rw [xorInto_eq_xorBytes _ _ (by rw [encryptBlock_length, hl11]; decide)]
+    have : (0x8000000000000000#64 : BitVec 64) = T1_FLAG_FINAL := by decide
+    rw [this]; rfl
+  have e7 : t7 = (h.state.t1 ||| T1_FLAG_FINAL) &&& ~~~T1_FLAG_FIRST := by
+    simp only [t7, t6, t5, t4]
+    have a : (0x8000000000000000#64 : BitVec 64) = T1_FLAG_FINAL := by decide
+    have b : (0xbfffffffffffffff#64 : BitVec 64) = ~~~T1_FLAG_FIRST := by decide
+    rw [a, b]
+  have e16 : t16 = skeinOutBytes skein1024 t13 0 output.length := by
+    simp only [t16, t15, Gen.Kernels.forChunksMutEnum]
+    rw [skein1024_out_tie t13 output.length 0 output (Nat.le_refl _)]
+  simp only [e17, Bool.true_eq_false, if_false, hnb, hpad, processBlock]
+  generalize hm : (BitVec.ofNat 64 h.buffer.pos).toNat = m
+  have e18 : t18 = decide (h.state.t0.toNat + m < 2 ^ 64) := by simp only [t18, t2, t1, hm]
+  by_cases hov : p = Profile.debug ∧ h.state.t0.toNat + m ≥ 2 ^ 64
+  · have h' : p = Profile.debug ∧ t18 = false := by
+      refine ⟨hov.1, ?_⟩; rw [e18, decide_eq_false_iff_not]; omega
+    rw [if_pos h']
+    simp only [st0, src0, t1, if_pos hov, bind_panic, noMsg]
+  · have h' : ¬ (p = Profile.debug ∧ t18 = false) := by
+      intro ⟨a, b⟩; apply hov; refine ⟨a, ?_⟩; rw [e18, decide_eq_false_iff_not] at b; omega
+    rw [if_neg h']
+    simp only [st0, src0, t1, if_neg hov, Out.bind_ok, outputLoop_closed, Out.pure_eq, e14, e16, e13, e7, e11,
+      show t3 = h.state.t0 + BitVec.ofNat 64 h.buffer.pos from rfl, processCore]
+
+theorem src_skein1024_reset (p : Profile) (h : Hasher) (n : Nat) (hn : n * 8 < 2 ^ 64) :
+    noMsg (Gen.Kernels.skein1024_reset p h.state.t0 h.state.t1 h.state.x h.buffer (BitVec.ofNat 64 n))
+      = noMsg (reset p skein1024 n h >>= fun h' => .ok (skeinEnc h')) := by
+  unfold Gen.Kernels.skein1024_reset reset
+  extract_lets t1 t2 t3 t4 t5 t6 t7
+  have e7 : t7 = Gen.Kernels.outOk (noMsg t1) := by rw [outOk_noMsg]
+  have e2 : t2 = Gen.Kernels.outGet (noMsg t1) := by rw [outGet_noMsg]
+  rw [e7, show t3 = t2.1 from rfl, show t4 = t2.2.1 from rfl, show t5 = t2.2.2.1 from rfl,
+    show t6 = t2.2.2.2 from rfl, e2, show t1 = Gen.Kernels.skein1024_default p (BitVec.ofNat 64 n) from rfl,
+    src_skein1024_default p n hn]
+  cases hd : Skein.Model.default p skein1024 n with
+  | ok s => simp [noMsg, Gen.Kernels.outOk, Gen.Kernels.outGet, skeinEnc]
+  | err => exact absurd hd (default_ne_err _ _ _)
+  | panic w => simp [noMsg, Gen.Kernels.outOk, bind_panic]
+
+/-- the structs of lib.rs: `$name<N> { state, buffer, _output }` (model `Hasher`: state, buffer), `State<X> { t, x }`
+    (model `State`: t0, t1, x), the union `Block<N> { bytes, words }` (its byte array); `Clone` is derived everywhere -/
+theorem src_skein_structs :
+    Gen.Kernels.skein_structs =
+      [("Skein256", "struct", ["state", "buffer", "_output"], ["Clone"], ["Default"]),
+       ("Skein512", "struct", ["state", "buffer", "_output"], ["Clone"], ["Default"]),
+       ("Skein1024", "struct", ["state", "buffer", "_output"], ["Clone"], ["Default"]),
+       ("State", "struct", ["t", "x"], ["Clone"], []),
+       ("Block", "union", ["bytes", "words"], ["Clone", "Copy"], [])] := rfl
 
 end CC.Src
